@@ -28,7 +28,7 @@ Texts == <<
   << O("("), Tk("Id", "y"), O(")"), O("."), Tk("Id", "k") >>                                \* (y).k  : the analysis refuses it
 >>
 Datas == << [x |-> <<"int", 2>>, y |-> <<"map", [k |-> <<"bool", TRUE>>]>>, fail |-> <<"func", "fail">>, crec |-> <<"func", "crec">>],
-            [x |-> <<"dec", FALSE, <<2,5>>, -1>>, y |-> <<"map", [k |-> <<"int", 0>>]>>, fail |-> <<"func", "fail">>, crec |-> <<"func", "crec">>],
+            [x |-> <<"dec", FALSE, <<2,5>>, -1>>, y |-> <<"map", [k |-> <<"int", 0>>]>>, fail |-> <<"func", "fail">>, crec |-> <<"func", "crec">>, t0 |-> <<"time", -719162, 0, 0>>],
             [y |-> <<"nil">>, fail |-> <<"func", "fail">>, crec |-> <<"func", "crec">>] >>
 
 ParseOf(i) == ParseTokens(Texts[i])
